@@ -58,7 +58,8 @@ pub fn worker_main() -> i32 {
                 Ok(s) => break serde_json::to_value(&s).unwrap(),
                 Err(mpsc::RecvTimeoutError::Timeout) => {
                     if cpu_seconds() - start_cpu > HANG_CPU_SECONDS {
-                        let v = json!({"hang": true});
+                        let phase = crate::driver::PHASE.load(std::sync::atomic::Ordering::Relaxed);
+                        let v = json!({"hang": true, "in_parser": phase == crate::driver::PHASE_PARSE});
                         let _ = writeln!(out, "{}", v);
                         let _ = out.flush();
                         std::process::exit(3);
@@ -89,6 +90,8 @@ pub struct WorkerChild {
 pub enum WorkerReply {
     Ok(Summary),
     Hang,
+    /// the watchdog fired while the SWC parser was still running (not the transform's time)
+    ParserHang,
     Died(String),
 }
 
@@ -132,6 +135,9 @@ impl WorkerChild {
                 };
                 if v.get("hang").is_some() {
                     let _ = self.child.wait();
+                    if v["in_parser"].as_bool() == Some(true) {
+                        return WorkerReply::ParserHang;
+                    }
                     return WorkerReply::Hang;
                 }
                 if v.get("thread_died").is_some() {
